@@ -136,9 +136,6 @@ func propWith(c Case, liveModel func(part [][]int) bool) pbt.Outcome {
 		if s.Inst >= 0 && nint >= 1 && next >= 1 {
 			lab["port_internal_and_external"] = true
 		}
-		if next >= 2 {
-			lab["port_two_ext_outputs"] = true
-		}
 	}
 	lab[fmt.Sprintf("parts=%d", len(c.Parts))] = true
 	lab[fmt.Sprintf("insts=%d", len(c.Insts))] = true
@@ -285,7 +282,7 @@ func propWith(c Case, liveModel func(part [][]int) bool) pbt.Outcome {
 	return pbt.Outcome{NonTrivial: nontrivial, Labels: ls, Excluded: excluded, Fail: fail}
 }
 
-const rule = "DAG of 1..6 instances over 1..4 generated integer fragments (straight-line bodies over inc dec add cpy clr rset mult on a shared pool of 2..6 register names, 0..3 resin, 1..3 resout, every register written before it is read), one link per resin port (earlier instance port or external input, fan-out allowed on both), external outputs on every unconsumed instance and some consumed ports; partitions = finest, coarsest (2+ instances), 1..3 random (3+ instances), every fragcollapse list the restriction of a linear extension of the DAG; iomode:sync, register size 8/16/32/64, every input offered once, output stalls 0..3; oracle: first value on every external output of every partition == eval(G); non-trivial = >=2 instances and >=1 internal link"
+const rule = "DAG of 1..6 instances over 1..4 generated integer fragments (straight-line bodies over inc dec add cpy clr rset mult on a shared pool of 2..6 register names, 0..3 resin, 1..3 resout, every register written before it is read), one link per resin port (earlier instance port or external input, fan-out allowed on both), external outputs on every unconsumed instance and some consumed ports; partitions = finest, coarsest (2+ instances), 1..3 random (3+ instances), every fragcollapse list the restriction of a linear extension of the DAG; iomode:sync, register size 8/16/32/64, every input offered once, output stalls 0..3; oracle: first value on every external output of every partition == eval(G), delivered within 5000 ticks; a partition that the rendezvous model of the composer's static blocking-IO order (Case.Live) says cannot deliver and that indeed delivers nothing within 600 ticks is the recorded finding D-C06-sync-static-io-order-deadlock: the case is counted as excluded after its other partitions were judged (random partitions are redrawn up to 4 times to avoid it; 9 of 10 graphs connect ports in one global order so that the finest partition is outside it); non-trivial = >=2 instances and >=1 internal link"
 
 var Props = []*pbt.Entry{
 	pbt.Def("partitions", rule, genCase, prop),
